@@ -6,7 +6,7 @@ PROP = {
     "parts": [e2e_part("chkE03", 40, 800)],
     "glue": "GH", "chk": "chk03", "explain": "explainH",
     "gotags": ["shim_memory", "shim_redis", "shim_timecache"],
-    "n": {"quick": 120, "thorough": 3000},
+    "n": {"quick": 120, "thorough": 1500},
     "rule": HIST_RULE + " Emphasis C03: same infohash, peer ID and port announced in both families in every history.",
     "tags": HIST_TAGS, "reasons": HIST_REASONS, "assumptions": HIST_ASSUMPTIONS,
     "trivial_tags": [], "min_tags": 4,
